@@ -249,7 +249,24 @@ def check(tier, seed):
     return common.generic_check(sys.modules[__name__], tier, seed)
 
 
+def _gen_large(rng, tier):
+    for _ in range(2 if tier == "quick" else 10):
+        n, L = (rng.randint(2, 4), rng.choice([4097, 4200])) if rng.random() < 0.4 else (rng.choice([101, 150, 260]), rng.randint(2, 8))
+        rows = [("s%d" % i, "".join(rng.choice("ACGTacgt-NRY") for _ in range(L))) for i in range(n)]
+        rs = rows_str(rows)
+        yield Case("maxchar", [1, rs, rng.randint(0, 1), rng.randint(0, 1), 3], True, "maxchar-large")
+        yield Case("consensus", [1, rs, rng.randint(0, 1), rng.randint(0, 1), 3], True, "consensus-large")
+        yield Case("charstats", [1, rs], True, "charstats-large")
+        yield Case("sitecounts", [1, rs], True, "sitecounts-large")
+        yield Case("uniques", [1, rs], True, "uniques-large")
+        if L < 100:
+            yield Case("countdiffs", [1, rs], True, "countdiffs-large")
+        yield Case("charstatssite", [1, rs, L - 1], True, "charstatssite-large")
+
+
 def gen(rng, tier):
+    for c in _gen_large(rng, tier):
+        yield c
     from driver import multigen
     for c in _gen_core(rng, tier):
         yield c
